@@ -454,10 +454,14 @@ def run(tier, seed):
 OPEN_ITEMS = [
     "CLOSED (notes/UNIFY.md section 6): unify completeness on typed axes is unbounded AND total -- C06_unify_complete_model_fuel: with the fuel the model itself uses, unify answers on every typed pair of patterns, has not warned, and returns a most general unifier / reports disjointness; no side condition is left. The former fuel formula of the model (6 * nodes + 10) was REFUTED (C06_unify_fuel_old_refuted: a.X = X.a' with X = PhysicalAxis(2**16) needs 49 > 46; a finding about the model, not about /repo, which has no fuel) and replaced by one that provably suffices (old term + 3 * (Sum nodes + 1) * (log2 of the largest dimension + 1)); the bounded theorems C06_unify_complete_upto12 / _2d_upto6 and the brute-force coincidence oracle on every implementation unifier stay as cross-checks",
     "C06_ty_has_type is one direction only: the converse (has_type e t = true, normal, linear -> typed in some context) is tied by the sound checker ty_b on the generator's universes, not proved in general",
-    "C06_reshape_refines_partial: carries explicit premises about the unifier of that call (complete_for = conclusion of C_unify, solvable = model_exists, size_preserving = wts_ty + ty_numel, wf of the result); they are discharged by agent-UNIFY's theorems for typed tensors after the merge; C06_reshape_unify_succeeds is stated with the completeness of the call as a premise; success of the remaining asserts of reshape_or_view on adjacent merges / size-1 insertion or removal is checked by the correspondence (must_succeed flag, verdict 5) only",
-    "where / stack / project: Gallina models (Model/PTensorOps.v) tied to the code by pt_check_select / pt_check_reduce on generated cases and judged by the dense specification spec_op2; refinement theorems open (where and project need unify completeness); any is proved (C06_any) under the guard 'dimension not empty or default false' (C06_any_empty_dim_refuted), dim_to_dense is proved (C06_dim_to_dense) under the guard 'a size-1 dimension is unitAxis'",
+    "reshape: C06_reshape_refines_typed discharges the unifier premises (complete_for, solvable, size_preserving) of C06_reshape_refines_partial for every typed target (typed_target: the primes of the dimension types regroup into the target sizes); the remaining premise is wf of the result (checked by the run-time monitor on every construction). C06_reshape_merge_succeeds / C06_reshape_unit_dims_succeed prove the 'always succeeds' half for explicit targets; targets containing -1 are checked by the correspondence only (must_succeed flag, verdict 5)",
+    "where: C06_where_refines_partial covers three operands of ONE typed shape (all code paths: swap, freshen, unify, fullness test, antiunify, masked_fill_, strided copy_); broadcasting between the operands of where is model + correspondence only (pt_check_select, spec_op2)",
+    "stack: model + correspondence only (pt_check_select). A refinement proof needs, per input, that the unifier of (lggs, t.vaxes) is solvable and in range (it is, by wts, whenever the generalisation lggs is typed like the inputs) plus soundness of unify and injectivity of the generalised pattern; typing of lggs is not a theorem in general: extend_antisubst memoises on structurally equal parts, which may occur at positions of different sum types",
+    "project: proved for typed pairs (C06_project_refines), any fuel; nothing open",
     "copy_: value semantics proved (C06_copy); the storage re-use rule (copy_reuses) is correspondence only (observed through data_ptr)",
-    "log_softmax / norm / iteration / tolist / exp / expm1 / log / logaddexp: correspondence only (no Coq model)",
+    "__iter__: modelled (pt_iter), model-checked (pt_check_reduce, op 59) and proved (C06_iter: the tensors yielded are the slices along the leading dimension, the unit branch keeps storage / axes / default) under the guard of dim_to_dense; tolist and getitem-by-integer iteration beyond C06_getitem: correspondence only",
+    "log_softmax / norm / exp / expm1 / log / logaddexp: correspondence only (no Coq model); any is proved (C06_any) under the guard 'dimension not empty or default false' (C06_any_empty_dim_refuted), dim_to_dense is proved (C06_dim_to_dense) under the guard 'a size-1 dimension is unitAxis'",
+    "a general link from the context-free has_type of Model/Axis.v to the context judgement ty (one direction proved: C06_ty_has_type; the other tied by ty_b on the generator's universes)",
     "F24 (degenerate one-element sum types, not generated): expansion does not broadcast a size-1 dimension whose axis is SumAxis(0, unitAxis, 0); the binary theorems carry the guard bcast_ok and C06_expansion_nonunit_size1_refuted is the witness",
 ]
 
@@ -498,7 +502,7 @@ def replay(path):
 
 MANIFEST = dict(
     level="proof",
-    text="Coq theorems about a Gallina model of fggs/indices.py's axis algebra (eval bound, stride = affine form, index inverts eval, pattern injectivity = at most one backing element, unify soundness, antiunify generalises both arguments and records parts of equal sizes, completeness of unify on typed axes -- unbounded, and total with the fuel formula of the model: C06_unify_complete / C06_unify_complete_model_fuel; bounded universes as a cross-check) and of PatternedTensor: to_dense = denote, view operations, unary maps, binary / commutative / sub / div through expansion WITH broadcasting (operands of different rank, unit dimensions), __post_init__, dense construction / full / from_int / eye, default_to, getitem (never raises in range), clone/freshen, copy_ and to (value semantics), reshape (under explicit premises about the unifier), any (both code paths), dim_to_dense, preservation of the representation invariant by every constructor and its equivalence with the monitor's oracle; Gallina models of where, stack, project, copy_'s storage rule. The models are tied to /repo by running both on generated typed axes/patterns; brute-force specifications judge every implementation output; every listed tensor operation and compositions of up to three are compared with torch on the denoted dense tensors; every PatternedTensor constructed inside the library is checked against the extracted representation invariant.",
-    note="Trusted: Coq kernel + vm_compute, extraction cross-checked against vm_compute, the Python harness (numbering of PhysicalAxis objects, independent evaluator of axes), torch's dense kernels as reference. All findings of this check (F1, F16, F16b, F21, F22, F23) are repaired in /repo; F24 (one-element sum types, outside the generated domain) is documented with a Coq witness. The fuel formula of the model of unify was found insufficient (C06_unify_fuel_old_refuted; the code has no fuel) and replaced by one proved sufficient for all typed patterns. Open: reshape's theorem carries unifier premises; where / stack / project are model + correspondence.",
+    text="Coq theorems about a Gallina model of fggs/indices.py's axis algebra (eval bound, stride = affine form, index inverts eval, pattern injectivity = at most one backing element, unify soundness and -- for typed patterns, unbounded, with the model's own fuel (C06_unify_complete_model_fuel: the model always answers) -- completeness / most general unifier, antiunify generalises both arguments and records parts of equal sizes) and of PatternedTensor: to_dense = denote, view operations, unary maps, binary / commutative / sub / div through expansion WITH broadcasting, __post_init__, dense construction / full / from_int / eye, default_to, getitem (never raises in range), clone/freshen, copy_ and to (value semantics), any (both code paths), dim_to_dense, __iter__, project (typed pairs: the returned dense tensor indexed by paxes is self indexed by vaxes), where (three operands of one typed shape: torch.where of the denotations), reshape / view (typed targets: denotes the reshaped tensor given wf of the result; succeeds on adjacent merges and size-1 insertion / removal with explicit sizes), preservation of the representation invariant by every constructor and its equivalence with the monitor's oracle; Gallina models of stack and copy_'s storage rule. The models are tied to /repo by running both on generated typed axes/patterns (including one-hot operands: no physical axis, ndim >= 1); brute-force specifications judge every implementation output; every listed tensor operation and compositions of up to three are compared with torch on the denoted dense tensors; every PatternedTensor constructed inside the library is checked against the extracted representation invariant.",
+    note="Trusted: Coq kernel + vm_compute, extraction cross-checked against vm_compute, the Python harness (numbering of PhysicalAxis objects, independent evaluator of axes), torch's dense kernels as reference. All findings of this check (F1, F16, F16b, F21, F22, F23) are repaired in /repo; F24 (one-element sum types, outside the generated domain) is documented with a Coq witness. Open: where with broadcasting between its operands, stack (model + correspondence), reshape targets with -1 and wf of reshape's result (run-time monitor), fuel sufficiency of unify in general.",
     technique="Coq proof (model + theorems) + model/implementation correspondence with brute-force specification oracles + differential testing against torch on denotations + runtime invariant monitor",
     design_ref="DESIGN.md section 6, C06; Appendix A.6; Appendix C")
